@@ -189,7 +189,7 @@ def exec_transform(case):
         tdim = "zo" if (t["method"] == "conservative" and t["has_outer"]) else "zc"
         theta = xr.DataArray(np.arange(len(coords[tdim][1])) * 2.0, dims=[tdim], name="theta")
         more = {} if t.get("bypass", "none") == "none" else {"bypass_checks": t["bypass"] == "true"}
-        target = np.array(t["bins"], dtype=float)
+        target = np.array(t["bins"], dtype=t.get("bins_dtype", "float64"))       # small non-negative integers: exact in every dtype
         if t.get("target_da"):
             target = xr.DataArray(target, dims=["lev"])
         res = grid.transform(da, "Z", target, target_data=theta, method=t["method"], **more)
@@ -212,7 +212,8 @@ def gen_transform(rng, n):
             bins[0], bins[1] = bins[1], bins[0]
         out.append({"ev": "TransformIll", "t": {"periodic": rng.choice([False, False, True, "default"]), "method": method,
                                                 "has_outer": rng.random() < 0.6, "bins": bins,
-                                                "bypass": rng.choice(["none", "none", "true", "false"]), "target_da": rng.random() < 0.3}})
+                                                "bypass": rng.choice(["none", "none", "true", "false"]), "target_da": rng.random() < 0.3,
+                                                "bins_dtype": rng.choice(["float64", "float64", "int64", "uint8", "uint16", "float32"])}})
     return out
 
 
